@@ -43,3 +43,39 @@ ALL = [scenario_self_call_as_second_call, scenario_cycle_among_other_macros, sce
 if __name__ == "__main__":
     for s in ALL:
         print(s.__name__, s())
+
+
+def scenario_edit_of_a_started_macro():
+    """a macro whose call is in progress (first body line done, waiting in the second): changing a not yet executed body line
+    through a live edit must be rejected"""
+    import logging
+    from openpectus.lang.exec.errors import MethodEditError
+    from openpectus.lang.exec.uod import UodBuilder
+    from openpectus.protocol.models import Method
+    from openpectus.test.engine.utility_methods import EngineTestRunner
+    logging.disable(logging.CRITICAL)
+
+    def create_uod():
+        uod = (UodBuilder().with_instrument("DemoUod").with_author("Demo", "demo@example.org").with_filename(__file__)
+               .with_hardware_none().with_location("loc").build())
+        uod.hwl.connect()
+        return uod
+    m1 = "01 Macro: M\n02     Mark: B\n03     Wait: 3s\n04     Mark: C\n05 Mark: A\n06 Call macro: M\n07 Mark: D\n"
+    m2 = m1.replace("04     Mark: C", "04     Mark: X")
+    try:
+        runner = EngineTestRunner(create_uod, Method.from_numbered_pcode(m1), fail_on_log_error=False)
+        with runner.run() as instance:
+            instance.start()
+            instance.run_until_instruction("Mark", state="completed", arguments="B", max_ticks=60)
+            macro = instance.method_manager.program.macros["M"]
+            started = (macro.run_started_count, macro.run_completed_count)
+            try:
+                instance.engine.set_method(Method.from_numbered_pcode(m2))
+            except MethodEditError as ex:
+                return {"violated": False, "scenario": "edit of a started macro", "rejected": str(ex)[:80]}
+            return {"violated": True, "scenario": "edit of a started macro was accepted", "started_completed_counts": started}
+    finally:
+        logging.disable(logging.NOTSET)
+
+
+ALL = list(ALL) + [scenario_edit_of_a_started_macro]
